@@ -582,7 +582,11 @@ open KV.WriterClose
 before it closes the queue; FetchMessage answers io.EOF when closed; Reader.Close order; `run` leaves the group before
 every exit; `leaveGroup`/`nextGeneration`/`coordinator` close their connections on every path; `conn.run` leaves its
 loop when `releaseConn` refuses; the waits of WriteMessages / FetchMessage / CommitMessages / `await` /
-`grabConnOrConnect` select on the context. -/
+`grabConnOrConnect` select on the context; the fetcher's `initialize` closes its connection when reading the offsets or
+the seek fails; ReadLag closes its probe connection and its loop ends with the context; `run`, `Next`, `sleep`, the
+heartbeat and partition-watcher loops select on done / their context; `Generation.close` waits for its goroutines; a
+connect that completes after its caller left is released or closed; the pool's last `unref` closes and cancels;
+Writer.Close closes its own transport. -/
 theorem close_protocol_facts_hold : Gen.CloseFacts.all.all (·.2) = true := by decide
 
 /-- the Writer protocol the source has now is the repaired one (`Cfg.fixed` is the extracted fact) … -/
